@@ -142,7 +142,7 @@ def _run_property(ctx):
                       {'kind': 'correspondence', 'stream': 'C10 apply', 'first': {k: mism[0][k] for k in ('strategy', 'model')}}, found=False, classify=False)
 
 
-MERGE_MODEL_THEOREMS = []
+MERGE_MODEL_THEOREMS = ['Nbdime.C10_model_no_conflict']
 THEOREMS.extend(t for t in MERGE_MODEL_THEOREMS if t not in THEOREMS)
 
 
